@@ -36,7 +36,10 @@ ElemClose(f, a, b, sc, slack) == IF f.cplx THEN ZClose(a, b, sc, slack) ELSE Clo
 
 \* B[idx] ~ A[Map(idx)] for every index of B; scale: |a| + |b| + 2^-12 max|A|
 RelatedBy(fa, fb, Map(_), slack) ==
-  LET floor == FMul(FPow2(-12), FMaxAbs(fa))
+  \* eigenvalues and concentrations are positive quantities whose SMALL values matter (log-determinants, floors):
+  \* they are compared purely relatively; other fields get an absolute floor of 2^-12 max|A|
+  LET floor == IF fa.name \in {"cacg_eigenvalues", "bingham_eigenvalues", "watson_concentration", "vmf_concentration"}
+               THEN FZero ELSE FMul(FPow2(-12), FMaxAbs(fa))
       idxs == AllIdx(fb.t.shape)
   IN  \A i \in 1..Len(idxs) :
         LET b == fb.t.data[Off(fb.t.shape, idxs[i])]
